@@ -33,7 +33,7 @@ ASSUMPTIONS = [
 LEVEL_TEXT = ("Random histories with colliding keys under every combination of matching options are compared step by "
               "step with a reference model; bounded by history length 24 and the small component universe.")
 LEVEL_NOTE = "trusts taddons.context option plumbing and http.Request.make"
-QUICK_N, THOROUGH_N = 20_000, 1_000_000
+QUICK_N, THOROUGH_N = 14_000, 1_000_000
 
 METHODS = ["GET", "POST", "PUT"]
 SCHEMES = ["http", "https"]
